@@ -175,28 +175,49 @@ def run(chk):
             method = ["lasso", "information_lasso", "alternative", "standard"][(t // 3) % 4] if info != "gaussian" else ["lasso", "information_lasso"][(t // 3) % 2]
             chk.count("semantic.dead_channel")
         nsh, k = 8, 3
+        # every second run uses non-default estimator settings: cmi AND the surrogates behind p must be computed with them
+        metric_, bw_ = "euclidean", "silverman"
+        if (t // 2) % 2 == 1 or info == "kde":
+            metric_ = str(rng.choice(["chebyshev", "cityblock"])) if info in ("knn", "geometric_knn") else "euclidean"
+            bw_ = [2.0, "scott", 0.5][t % 3] if info == "kde" else "silverman"
+            k = int(rng.integers(2, 6))
         names = [f"X{j}" for j in range(n)]
         with Spy(disc) as spy, lib.quiet():
             G = disc.discover_network(series, method=method, information=info, max_lag=L, n_shuffles=nsh, k_means=k,
-                                      alpha_forward=0.2, alpha_backward=0.2)
+                                      alpha_forward=0.2, alpha_backward=0.2, metric=metric_, bandwidth=bw_)
 
-        def recompute(i, u, tau, c, p, others, tcall, series=series, L=L, info=info, k=k, nsh=nsh):
+        def recompute(i, u, tau, c, p, others, tcall, series=series, L=L, info=info, k=k, nsh=nsh, metric_=metric_, bw_=bw_):
             Tn = series.shape[0]
             Xe = np.array([[series[tt - tau, u]] for tt in range(L, Tn)])
             Ye = np.array([[series[tt, i]] for tt in range(L, Tn)])
             Ze = np.array([[series[tt - t2, u2] for (u2, t2) in others] for tt in range(L, Tn)]) if others else None
-            v = CMI(Xe, Ye, Ze, method=info, metric="euclidean", k=k, bandwidth="silverman")
+            v = CMI(Xe, Ye, Ze, method=info, metric=metric_, k=k, bandwidth=bw_)
             if not (np.isfinite(v) and np.isfinite(c)):
                 return None if (np.isnan(v) and np.isnan(c)) or v == c else f"edge cmi {c} but independent evaluation gives {v}"
             if abs(v - c) > 1e-9 * max(1.0, abs(v)):
                 return (f"edge X{u}->X{i} lag {tau}: reported cmi {c} but the {info} estimator on (X{u}(t-{tau}), X{i}(t) | other parents) gives {v}")
+            # the test behind the edge's p-value must be run on the SAME statistic: same estimator and settings as the cmi
+            import inspect
+            try:
+                ba = inspect.signature(spy.saved["shuffle_test"]).bind_partial(None, None, None, 0.0, *tcall["args"], **tcall["kw"])
+                ba.apply_defaults()
+                used = {a: ba.arguments.get(a) for a in ("information", "metric", "k_means", "bandwidth")}
+                want = {"information": info, "metric": metric_, "k_means": k, "bandwidth": bw_}
+                rel = {"kde": ["information", "bandwidth"], "knn": ["information", "metric", "k_means"],
+                       "geometric_knn": ["information", "metric", "k_means"]}.get(info, ["information"])
+                bad = [a for a in rel if used[a] != want[a]]
+                if bad:
+                    return (f"edge X{u}->X{i} lag {tau}: its p-value comes from a permutation test run with {({a: used[a] for a in bad})} "
+                            f"while the edge's cmi uses {({a: want[a] for a in bad})}: not the fraction of surrogates of the SAME estimator")
+            except TypeError:
+                pass
             g = tcall["rng_copy"]
             if g is None:
                 return None
             cnt = 0
             for _ in range(nsh):
                 perm = g.permutation(len(Xe))
-                cnt += CMI(Xe[perm, :], Ye, Ze, method=info, metric="euclidean", k=k, bandwidth="silverman") >= c
+                cnt += CMI(Xe[perm, :], Ye, Ze, method=info, metric=metric_, k=k, bandwidth=bw_) >= c
             if abs(cnt / nsh - p) > 1e-12:
                 return (f"edge X{u}->X{i} lag {tau}: p_value {p} but {cnt}/{nsh} row-shuffled surrogates of that delayed predictor "
                         f"(same generator state) have information >= {c}")
